@@ -113,10 +113,11 @@ theorem receives_iff_own_stages_succeed (env : Env) (c : Cfg) (n i : Nat) (s : H
 theorem outcome_local (env env' : Env) (c : Cfg) (i : Nat) (b : Bool)
     (hl : env.level i = env'.level i) (hx : env.hasExc i = env'.hasExc i)
     (hf : ∀ st, env.fault i c.id st = env'.fault i c.id st)
-    (ha : env.accept i c.id = env'.accept i c.id) (hlo : env.loop i = env'.loop i) :
+    (ha : env.accept i c.id = env'.accept i c.id) (hlo : env.loop i = env'.loop i)
+    (hr : env.raw i = env'.raw i) :
     outcome env c i b = outcome env' c i b := by
   unfold outcome handOff firstFault firstFault firstFault firstFault firstFault faultAt stageActive
-  simp only [hl, hx, hf, ha, hlo]
+  simp only [hl, hx, hf, ha, hlo, hr]
 
 /-- `catch=False` on handler `c`: the error of its first failing stage reaches the caller, with no
     report -/
@@ -532,6 +533,43 @@ theorem remove_all_repeated_empties_registry (env : Env) (ks : List Nat) (w : Wo
     (w.reg.length ≤ ks.length → (ks.foldl (fun w k => (removeAllW env k w).w) w).reg = []) :=
   ⟨fun hne k => removeAllW_length_lt env k w hne, removeAll_repeated env ks w⟩
 
+/-! ### round 5 – `await logger.complete()`: `AsyncSink._complete_task` (`Gen.completeTaskSwallows`, read from the AST) -/
+
+/-- awaiting the tasks of a coroutine sink never raises on account of a failing task body, whatever it raised and
+    however many tasks fail: `_complete_task` swallows it (the done-callback reports it – `task_exception_retrieved`),
+    so `complete()` on a handler in working order returns normally and leaves it in working order -/
+theorem complete_never_raises_for_failing_tasks (env : Env) (ht : StderrTame env) (c : Cfg) (s : HState)
+    (ts : List Nat) (hg : Good (c, s)) :
+    (∀ e, Gen.completeTaskSwallows e = true) ∧ tasksRes env c ts = .ok ∧
+    (completeH env c s).res = .ok ∧ Good (c, (completeH env c s).st) :=
+  ⟨fun e => by cases e <;> rfl, tasksRes_ok env c ts, (completeH_good env ht c s hg).2, (completeH_good env ht c s hg).1⟩
+
+/-! ### round 5 – whole histories refine the specification -/
+
+/-- REFINEMENT AT THE LEVEL OF HISTORIES: for every set of added handlers, every history of log / complete /
+    remove(id) / remove() operations and every fault oracle (stderr tame, sinks that do not call the logger), the
+    model of the code – locks, markers, try/except, `should_catch`, print – produces exactly the registry, the
+    stderr events and the results at the call sites that the specification's history produces, operation by
+    operation (induction over the history; the invariant is `AllGood`) -/
+theorem history_refines_spec (env : Env) (ht : StderrTame env) (hre : ∀ i h, env.reenter i h = []) (n : Nat)
+    (cfgs : List Cfg) (ops : List Op) :
+    runW env n ops (cfgs.foldl (fun w c => addW c w) {}) = specRunW env ops (cfgs.foldl (fun w c => addW c w) {}) :=
+  runW_eq_specRunW env ht n ops _ (addAll_good cfgs {} (by intro p hp; simp at hp)) hre
+
+/-! ### round 5 – `opt(raw=True)`: the `is_raw` branch of `emit` (`Gen.rawSkipsFormatMap`, read from the AST) -/
+
+/-- a raw message is emitted as it is – no `format_map` call in the `is_raw` branch – so whatever the handler's
+    format would raise for it (a missing `extra` key, a value whose `__format__` raises) is irrelevant: the outcome
+    of the message in this handler is the same under every replacement of its `format_map` fault -/
+theorem raw_message_unaffected_by_format_faults (env : Env) (c : Cfg) (i : Nat) (b : Bool) (f : Option Err)
+    (hr : env.raw i = true) :
+    Gen.rawSkipsFormatMap = true ∧
+    outcome { env with fault := fun i' h st => if i' = i ∧ h = c.id ∧ st = .formatMap then f else env.fault i' h st }
+      c i b = outcome env c i b := by
+  refine ⟨rfl, ?_⟩
+  unfold outcome handOff firstFault firstFault firstFault firstFault firstFault faultAt stageActive
+  simp [hr, Gen.rawSkipsFormatMap]
+
 /-! ### non-vacuity: concrete environments meeting the hypotheses, evaluated by the kernel -/
 
 /-- handler 1's `format_map` raises KeyError for message 0; handler 2's stream fails to flush -/
@@ -617,5 +655,10 @@ example :
     (removeAllW env 10 (removeAllW env 9 w).w).w.reg = [] ∧
     stopFault env { id := 0 } 9 = none ∧ NoUserStop { id := 0 } := by
   refine ⟨by decide, by decide, by decide, by decide, Or.inl rfl⟩
+
+/-- `opt(raw=True)`: handler 1's `format_map` fault fails the formatted message 0 but not the same message logged
+    raw (non-vacuity of `raw_message_unaffected_by_format_faults`) -/
+example : outcome exEnv { id := 1 } 0 false = .failed .keyError ∧
+    outcome { exEnv with raw := fun _ => true } { id := 1 } 0 false = .delivered := by decide
 
 end C04
